@@ -89,3 +89,41 @@ func harnessC17Parse() {
 	verif.Assert(rx == ex, "processing a specification concurrently with another changes its outcome (first goroutine)")
 	verif.Assert(ry == ey, "processing a specification concurrently with another changes its outcome (second goroutine)")
 }
+
+// c17Pool: accepted and rejected specifications (an unknown predefined name on a token no rule uses, the
+// same on a token that is used, an undefined token, a duplicate definition): rejections leave traces in
+// other places than acceptances do.
+var c17Pool = []string{
+	"grammar g;\nstart = [ \"a\" ] { \"b\" \"c\" } ( \"a\" | \"b\" );\n",
+	"grammar h;\nID = /[a-z]+/;\nstart = {{ ID }} [ \"x\" ID ] | ;\n",
+	"grammar e;\nWS = $BOGUS;\nstart = \"a\";\n",
+	"grammar f;\nID = $BOGUS;\nstart = ID;\n",
+	"grammar u;\nstart = ID \"a\";\n",
+	"grammar d;\nID = \"x\";\nID = \"y\";\nstart = ID;\n",
+	"grammar k;\nWS = $WS;\nstart = \"a\" start | ;\n",
+}
+
+func c17Outcome(text string) string {
+	s, err := Parse("f", strings.NewReader(text))
+	if err != nil {
+		return "error: " + err.Error()
+	}
+	out := c17Dump(s)
+	if _, _, derr := s.DFA(); derr != nil {
+		out += " automaton error: " + derr.Error()
+	}
+	return out
+}
+
+// harnessC17History: the outcome of processing a specification (the specification, or the diagnostics) is
+// the same whether it is processed first or after any other specification of the pool, accepted or rejected.
+func harnessC17History() {
+	x := verif.Pick("x", len(c17Pool))
+	y := verif.Pick("y", len(c17Pool))
+	alone := c17Outcome(c17Pool[x])
+	other := c17Outcome(c17Pool[y])
+	after := c17Outcome(c17Pool[x])
+	verif.Reach("compared")
+	verif.Assert(alone == after, "the outcome of processing a specification depends on what was processed before: "+after+" (alone: "+alone+")")
+	verif.Assert(c17Outcome(c17Pool[y]) == other, "the outcome of processing a specification depends on what was processed before (second specification)")
+}
